@@ -962,7 +962,42 @@ func c10File(r *Run) {
 	runtime.KeepAlive(retained)
 }
 
+// c10Introspect: the bank-level correspondence reads unexported fields of ResourceBank
+// and ReadBuf (read only).  When a rewrite of the library renames them the correspondence
+// can no longer observe the implementation: that is reported as such, not as a crash.
+func c10Introspect() (missing string) {
+	defer func() {
+		if p := recover(); p != nil {
+			missing = fmt.Sprint(p)
+		}
+	}()
+	bt := reflect.TypeOf(avro.ResourceBank{})
+	for _, f := range []string{"types", "sData"} {
+		if _, ok := bt.FieldByName(f); !ok {
+			return "ResourceBank." + f
+		}
+	}
+	tf, _ := bt.FieldByName("types")
+	if tf.Type.Kind() != reflect.Slice {
+		return "ResourceBank.types is not a slice"
+	}
+	for _, f := range []string{"ptyp", "array", "cap", "len", "size"} {
+		if _, ok := tf.Type.Elem().FieldByName(f); !ok {
+			return "resourceType." + f
+		}
+	}
+	if _, ok := reflect.TypeOf(avro.ReadBuf{}).FieldByName("rb"); !ok {
+		return "ReadBuf.rb"
+	}
+	return ""
+}
+
 func runC10(r *Run) {
+	if m := c10Introspect(); m != "" {
+		r.Fail(-1, "correspondence-broken", "the bank-level correspondence (Corr/Bank.v, harness/c10.go) reads the unexported field "+m+
+			", which this version of the library does not have: the model can no longer be compared with the implementation", map[string]any{"missing": m})
+		return
+	}
 	old := runtime.GOMAXPROCS(1) // one P: every pooled bank is visible to Pool.Get
 	defer runtime.GOMAXPROCS(old)
 	nA, nB := r.N(220, 2500), r.N(160, 2000)
